@@ -464,6 +464,9 @@ func (c *child) stress() {
 		ops []Op8
 		nR  int
 		R   int // renders per goroutine (0: the default)
+		// judge, by template name: operations whose bytes cannot be compared with
+		// the solo run (randomInt) are judged by this instead ("" = fine)
+		judge map[string]func(c08.Obs) string
 	}
 	var jobs []job
 	// the model's bundles first, then generated ones
@@ -476,20 +479,37 @@ func (c *child) stress() {
 		for _, f := range fam.Inputs.Files {
 			ops = append(ops, Op8{Op: "genjs", F: f.Name})
 		}
-		jobs = append(jobs, job{fam.Cfg, fam.Inputs, ops, n, 0})
+		jobs = append(jobs, job{fam.Cfg, fam.Inputs, ops, n, 0, nil})
 	}
 	if c.in.StressBundles > 0 {
 		// LARGE content blocks and values, first: their buffers are where pooling
 		// and reuse go wrong
 		in, ops, n := bigJob()
-		jobs = append(jobs, job{c08.Configs[0], in, ops, n, R / 5}, job{c08.Configs[3], in, ops, n, R / 5})
+		jobs = append(jobs, job{c08.Configs[0], in, ops, n, R / 5, nil}, job{c08.Configs[3], in, ops, n, R / 5, nil})
+	}
+	if c.in.StressBundles > 0 {
+		// a REAL message bundle (pomsg.Load of .po texts), one per locale, shared
+		// by all goroutines
+		for _, loc := range []string{"aa", "bb"} {
+			in, ops, n, err := msgJob(loc)
+			if err != nil {
+				c.toolErr("message-bundle job: %v", err)
+				break
+			}
+			jobs = append(jobs, job{c08.Configs[0], in, ops, n, 0, nil})
+		}
+	}
+	covAt := -1
+	if c.in.StressBundles > 0 {
+		covAt = len(jobs) // built when its turn comes: it enumerates the registries under its configuration
+		jobs = append(jobs, job{cfg: c08.Configs[3]})
 	}
 	for b := 0; b < c.in.StressBundles; b++ {
 		cfg := c08.Configs[(b%2)*3] // alternately no extensions / obligatory directive + custom function
 		g := &core.ProgGen{R: r, MaxDepth: 1 + r.Intn(3)}
 		p := g.Gen()
 		in, _, ops, nRender := c08.BuildCases(r, p, cfg)
-		jobs = append(jobs, job{cfg, in, ops[:len(ops)-1], nRender, 0})
+		jobs = append(jobs, job{cfg, in, ops[:len(ops)-1], nRender, 0, nil})
 	}
 	defaultR := R
 	for ji, j := range jobs {
@@ -501,6 +521,14 @@ func (c *child) stress() {
 		if err != nil {
 			c.toolErr("install %s: %v", j.cfg.Name, err)
 			return
+		}
+		if ji == covAt {
+			in, ops, n, judge, missing := covJob()
+			for _, m := range missing {
+				c.toolErr("%s is registered but the concurrent stress has no use of it: add one to covJob (harness/c09/coverage.go)", m)
+			}
+			j = job{j.cfg, in, ops, n, 0, judge}
+			c.out.Distinct = append(c.out.Distinct, "coverage-bundle")
 		}
 		inst, err := c08.NewInstance(j.in)
 		if err != nil {
@@ -548,6 +576,16 @@ func (c *child) stress() {
 						} else {
 							rec.js++
 						}
+						if jf := j.judge[o.T]; jf != nil && o.Op == "render" {
+							if w := jf(obs); w != "" {
+								rec.self = &Mismatch{Kind: kind, Family: "concurrent-bytes", Cfg: j.cfg, Inputs: j.in, Cases: renderCases(j.ops[:j.nR]), Gor: g + 1, Case: Case{o.T, o.D},
+									Expected: Expect{"ok", "(not comparable with the solo run: " + w + ")"}, Observed: obs,
+									What: fmt.Sprintf("%d goroutines (%s) on one bundle: goroutine %d, %s: %s: err=%v %q (%s)", G, kind, g+1, o.Key(), w, obs.Err, trunc(obs.Out, 200), trunc(obs.ErrText, 300))}
+								atomic.StoreInt32(&stop, 1)
+								return
+							}
+							continue
+						}
 						f, ok := rec.first[o.Key()]
 						if !ok {
 							rec.first[o.Key()] = obs
@@ -585,6 +623,9 @@ func (c *child) stress() {
 					continue
 				}
 				for _, o := range universe {
+					if j.judge[o.T] != nil && o.Op == "render" {
+						continue
+					}
 					obs, ok := rec.first[o.Key()]
 					s := solo[o.Key()]
 					if ok && (obs.Err != s.Err || obs.Out != s.Out) {
